@@ -327,7 +327,7 @@ def term_size(t, limit=200):
     return n
 
 
-def name_seq(ex, sq):
+def name_seq(ex, sq, force=False):
     """definitional extension: give a symbolic-length sequence with large element terms a function symbol F with
     forall k in [0,n): F(k) = elem(k), so that sums over it stay small atoms.  One name per sequence value."""
     from .values import Seq
@@ -339,8 +339,9 @@ def name_seq(ex, sq):
         return hit[1]
     probe = z3.Int("$probe")
     e = sq.get(probe)
-    if not is_sym(e) or z3.is_bool(e) or term_size(e, 40) <= 40:
-        memo[id(sq)] = (sq, sq)
+    if not is_sym(e) or z3.is_bool(e) or (not force and term_size(e, 40) <= 40):
+        if not force:
+            memo[id(sq)] = (sq, sq)
         return sq
     # structural memo: sequences with identical element terms and length share one name
     skey = ("struct", e.sexpr(), to_int(sq.n).sexpr(), sq.kind)
@@ -408,11 +409,54 @@ def _sum_normal(ctx, lo_t, hi_t, body):
         if not dep:
             term = factor * count
         else:
-            dep_key = "*".join(f"{k}^{pw}" if pw != 1 else k for k, pw in dep)
-            S = atomic_sum(ctx, dep_key, dep, p.atoms)
-            term = factor * S(lo_t, hi_t)
+            body = None
+            for key, pw in dep:
+                a = to_real(p.atoms[key])
+                for _ in range(pw):
+                    body = a if body is None else body * a
+            term = factor * atomic_sum_app(ctx, body, lo_t, hi_t)
         acc = term if acc is None else acc + term
     return acc if acc is not None else z3.RealVal(0)
+
+
+def _fresh_consts(term):
+    """uninterpreted constants with generated names (bound variables of quantifiers, loop iteration constants,
+    let-names, callee results) in a structure-determined order"""
+    out = []
+    seen = set()
+    stack = [term]
+    while stack:
+        x = stack.pop()
+        if x.get_id() in seen:
+            continue
+        seen.add(x.get_id())
+        if z3.is_quantifier(x):
+            continue
+        if z3.is_const(x) and x.decl().kind() == z3.Z3_OP_UNINTERPRETED and "!" in x.decl().name():
+            out.append(x)
+        stack.extend(reversed(x.children()))
+    return out
+
+
+def atomic_sum_app(ctx, body, lo_t, hi_t):
+    """S(lo, hi, c1..cn): the atomic sum of `body` over $k, as a function of the range AND of every generated
+    constant in the body (they may be bound variables or be substituted later, so they must be arguments, never part
+    of the symbol's name)"""
+    consts = _fresh_consts(body)
+    if consts:
+        ph = [z3.Const(f"#{i + 1}", c.sort()) for i, c in enumerate(consts)]
+        body_abs = z3.substitute(body, *list(zip(consts, ph)))
+    else:
+        ph, body_abs = [], body
+    key = polynomial(body_abs).canon()
+    reg = ctx.sum_registry
+    info = reg.get(key)
+    if info is None:
+        name = f"Σ[{key}]"
+        S = z3.Function(name, z3.IntSort(), z3.IntSort(), *[c.sort() for c in consts], z3.RealSort())
+        info = {"fn": S, "body": body_abs, "name": name, "params": ph}
+        reg[key] = info
+    return info["fn"](lo_t, hi_t, *consts)
 
 
 def atomic_sum(ctx, dep_key, dep, atoms):
@@ -432,31 +476,35 @@ def atomic_sum(ctx, dep_key, dep, atoms):
 
 def sum_definition_axioms(ctx):
     """the recursive definition of every atomic sum created so far, as quantified axioms:
-       S(lo,hi) = 0 for hi<=lo ;  S(lo,hi+1) = S(lo,hi) + body(hi) for hi>=lo"""
+       S(lo,hi,cs) = 0 for hi<=lo ;  S(lo,hi+1,cs) = S(lo,hi,cs) + body(hi,cs) for hi>=lo"""
     axs = []
     lo, hi = z3.Ints("Σlo Σhi")
     for info in ctx.sum_registry.values():
-        S, body = info["fn"], info["body"]
-        axs.append(z3.ForAll([lo, hi], z3.Implies(hi <= lo, S(lo, hi) == 0), patterns=[S(lo, hi)]))
-        step = z3.substitute(body, (SIGMA_K, hi))
-        axs.append(z3.ForAll([lo, hi], z3.Implies(hi >= lo, S(lo, hi + 1) == S(lo, hi) + step),
-                             patterns=[S(lo, hi + 1)]))
+        S, body, ps = info["fn"], info["body"], info.get("params", [])
+        qs = [z3.Const(f"Σp{i}", p.sort()) for i, p in enumerate(ps)]
+        b = z3.substitute(body, *list(zip(ps, qs))) if ps else body
+        axs.append(z3.ForAll([lo, hi] + qs, z3.Implies(hi <= lo, S(lo, hi, *qs) == 0), patterns=[S(lo, hi, *qs)]))
+        step = z3.substitute(b, (SIGMA_K, hi))
+        axs.append(z3.ForAll([lo, hi] + qs, z3.Implies(hi >= lo, S(lo, hi + 1, *qs) == S(lo, hi, *qs) + step),
+                             patterns=[S(lo, hi + 1, *qs)]))
     return axs
 
 
 def sum_sign_lemmas(ctx, hyps_solver_factory=None):
     """for every atomic sum: (forall k in [lo,hi): body(k) >= 0) => S(lo,hi) >= 0, and > 0 if additionally the range
-    is non-empty and body > 0.  Sound consequences of the recursive definition (induction on hi; proved once in
-    lemmas/sum_lemmas.py for an arbitrary body)."""
+    is non-empty and body > 0.  Sound consequences of the recursive definition (induction on hi)."""
     axs = []
     lo, hi, k = z3.Ints("Σlo Σhi Σq")
     for info in ctx.sum_registry.values():
-        S, body = info["fn"], info["body"]
-        bk = z3.substitute(body, (SIGMA_K, k))
+        S, body, ps = info["fn"], info["body"], info.get("params", [])
+        qs = [z3.Const(f"Σp{i}", p.sort()) for i, p in enumerate(ps)]
+        b = z3.substitute(body, *list(zip(ps, qs))) if ps else body
+        bk = z3.substitute(b, (SIGMA_K, k))
         nonneg = z3.ForAll([k], z3.Implies(z3.And(lo <= k, k < hi), bk >= 0))
         pos = z3.ForAll([k], z3.Implies(z3.And(lo <= k, k < hi), bk > 0))
-        axs.append(z3.ForAll([lo, hi], z3.Implies(nonneg, S(lo, hi) >= 0), patterns=[S(lo, hi)]))
-        axs.append(z3.ForAll([lo, hi], z3.Implies(z3.And(pos, hi > lo), S(lo, hi) > 0), patterns=[S(lo, hi)]))
+        axs.append(z3.ForAll([lo, hi] + qs, z3.Implies(nonneg, S(lo, hi, *qs) >= 0), patterns=[S(lo, hi, *qs)]))
+        axs.append(z3.ForAll([lo, hi] + qs, z3.Implies(z3.And(pos, hi > lo), S(lo, hi, *qs) > 0),
+                             patterns=[S(lo, hi, *qs)]))
     return axs
 
 
